@@ -211,15 +211,30 @@ class KernelSpec:
     def parse_native(self, inst, shape, toks):
         raise NotImplementedError
 
+    # how to find the function: full `::` path of a free fn (the MIR prints a unique *suffix* of it), or
+    # method = (Self type, trait or None, method name) resolved through the impl headers read from the source
+    fn_path = None
+    method = None
+
     def get_fn(self, ctx, inst):
-        d = ctx.dumps(self.dumps)
-        for k in self.dumps:
-            fs = d[k].find(self.fn_pattern, self.fn_sig)
-            if len(fs) == 1:
-                return fs[0].parse()
-            if len(fs) > 1:
-                raise interp.Unsupported(f"ambiguous function {self.fn_pattern}")
-        raise interp.Unsupported(f"function {self.fn_pattern} (sig {self.fn_sig}) not found in the MIR of the current tree")
+        ex = ctx.executor(self.dumps)
+        if self.method is not None:
+            self_ty, trait, name = self.method
+            for k, v in self.tymap(inst).items():
+                self_ty = re.sub(r"(?<![A-Za-z0-9_:])" + re.escape(k) + r"(?![A-Za-z0-9_])", v, self_ty)
+            r = ex.resolve_method(self_ty, trait, name)
+            if r is None:
+                raise interp.Unsupported(f"method <{self_ty} as {trait}>::{name} not found in the MIR of the current tree")
+            fn, binding = r
+            self._binding = binding
+            return fn.parse()
+        path = self.fn_path or self.fn_pattern
+        cands = [f for k, f in ex.lookup_fn(path) if f.kind == "fn" and (self.fn_sig is None or self.fn_sig in f.header)]
+        if len(cands) == 1:
+            return cands[0].parse()
+        if not cands:
+            raise interp.Unsupported(f"function {path} not found in the MIR of the current tree")
+        raise interp.Unsupported(f"ambiguous function {path}: {[c.header[:100] for c in cands[:4]]}")
 
 
 def rnd_int(rng, ty, small=False):
